@@ -52,3 +52,7 @@ claim('C12', 'Hypothesis-generated constructed crossings (all type pairs), exact
       'About 16k (quick) / 300k (thorough) generated cases of which ~40% survive the general-position filters: constructed transversal crossings must be reported once within 1e-4 in both parameters; Line-Line/Line-Quadratic/Line-Cubic counts must equal the exact count from Sturm sequences over the rationals; every interior transversal crossing of two paths must appear once in Path.intersect.',
       'Trusts: vp/ref/xgeom.py polyline finder + Newton refinement for locating other crossings, vp/ref/exactgeom.py for exact counts; cases not in general position (end-point contact, near tangency, coincident crossing points, near cusps) are discarded and counted.',
       'DESIGN.md 2/C12')
+claim('C13', 'Hypothesis-generated Bezier segments/paths and structured query points (far, near, on-curve, centre of curvature, beyond an end); global-optimality oracle from dense sampling + golden-section refinement',
+      'About 16k (quick) / 300k (thorough) (curve, point) cases: t in range, the returned distances are attained at the returned parameters, and no sampled or refined point of the curve is closer than dmin / farther than dmax (1e-7 of the size); for paths the extreme over all segments and the reported index, plus closest/farthest_point_in_path agreement.',
+      'Trusts: point() (C03); 4001-point sample with golden-section refinement as the reference optimum.',
+      'DESIGN.md 2/C13')
